@@ -152,7 +152,7 @@ RUN_TIMEOUT = 30      # seconds; no scenario is ever run longer than this by the
 
 def measure(line):
     best = None
-    for _ in range(2):
+    for _ in range(3):
         t = time.time()
         out = modelrun(line, timeout=RUN_TIMEOUT)
         dt = time.time() - t
@@ -330,7 +330,8 @@ def setup_files_of(setup):
 
 
 def partition_contiguous(costs, k):
-    """split the sequence into k contiguous non-empty segments minimising the largest sum"""
+    """split the sequence into k contiguous non-empty segments minimising the sum of the squares of
+    the segment costs (keeps the largest segment small and, unlike min-max, has no degenerate ties)"""
     n = len(costs)
     k = min(k, n)
     pre = [0.0]
@@ -343,7 +344,9 @@ def partition_contiguous(costs, k):
     for j in range(1, k + 1):
         for i in range(j, n + 1):
             for m in range(j - 1, i):
-                v = max(best[j - 1][m], pre[i] - pre[m])
+                if best[j - 1][m] == INF:
+                    continue
+                v = best[j - 1][m] + (pre[i] - pre[m]) ** 2
                 if v < best[j][i]:
                     best[j][i], cut[j][i] = v, m
     bounds, i = [], n
@@ -393,9 +396,9 @@ class Builder:
                 self.costs[line] = s["cost"] = 999.0
                 s["verdict"] = "TIMEOUT"
                 return s
-            if dt > 3 * s["cost"] + 0.15:
-                self.costs[line] = s["cost"] = dt      # stale cache entry
-                if max_cost is not None and dt > max_cost:
+            if dt > 5 * s["cost"] + 1.0:
+                self.costs[line] = s["cost"] = min(dt, measure(line))      # stale cache entry
+                if max_cost is not None and s["cost"] > max_cost:
                     s["verdict"] = "SKIPPED"
                     return s
             s["verdict"] = v
@@ -767,13 +770,12 @@ class Builder:
         t.append("Definition example%s_configs : nat := %s.\n" %
                  (pp, str(n) if n is not None else "Eval vm_compute in count_configs example%s" % pp))
         self.example_count = n
-        t.append("Lemma example%s_count : count_configs example%s = example%s_configs.\nProof. vm_compute. reflexivity. Qed.\n" % (pp, pp, pp))
+        t.append("Lemma example%s_count : count_configs example%s = example%s_configs.\nProof. vm_cast_no_check (@eq_refl nat example%s_configs). Qed.\n" % (pp, pp, pp, pp))
         t.append("Lemma example%s_explore_count :\n  exists w0, start_world example%s = Some w0 /\\\n"
                  "    explore_count (map api (sc_calls example%s)) sched_fuel\n"
                  "                  [init_cfg (map api (sc_calls example%s)) w0] 0 = example%s_configs.\n"
-                 "Proof.\n  pose proof example%s_count as H. unfold count_configs in H.\n"
-                 "  destruct (start_world example%s) as [w0|] eqn:E; [|discriminate H].\n"
-                 "  exists w0. split; [reflexivity | exact H].\nQed." % (pp, pp, pp, pp, pp, pp, pp))
+                 "Proof.\n  apply count_configs_spec; [exact example%s_count | unfold example%s_configs; discriminate].\nQed."
+                 % (pp, pp, pp, pp, pp, pp, pp))
         return "\n".join(t) + "\n"
 
     # ----- M<PP>R.v -----
